@@ -263,7 +263,7 @@ impl<'a> Gen<'a> {
                         Inl::Html("</b>".into())
                     }
                 }
-                22 if self.p.has("breaks") && i + 1 < n && i > 0 && !in_table => {
+                22 if i + 1 < n && i > 0 && !in_table => {
                     Inl::Break(self.rng.chance(1, 3))
                 }
                 23 if self.p.has("escapes") => {
@@ -452,8 +452,8 @@ impl<'a> Gen<'a> {
                             Some(b) => b,
                             None => self.para(),
                         },
-                        9 if self.p.has("item-rule-table") => {
-                            if self.rng.chance(1, 2) {
+                        9 => {
+                            if self.rng.chance(1, 2) || !self.p.tables {
                                 Blk::Rule(self.rng.below(3))
                             } else {
                                 self.table()
